@@ -173,6 +173,29 @@ pub fn run(a: &Args) {
     agree(&mut o, "degenerate", "ZV::A()", &st(ZV::SCHEMA), &ZV::A());
     agree(&mut o, "degenerate", "ZV::B(7)", &st(ZV::SCHEMA), &ZV::B(7));
     agree(&mut o, "degenerate", "ZV::C{}", &st(ZV::SCHEMA), &ZV::C {});
+    // field order: struct and struct-variant fields declared in non-alphabetical order (serde_json's
+    // map is sorted by key, the wire format follows the declaration)
+    #[derive(Serialize, Schema)]
+    struct Unsorted {
+        zeta: u8,
+        alpha: u16,
+        mid: bool,
+    }
+    #[derive(Serialize, Schema)]
+    enum Shape {
+        Nothing,
+        Rect { width: u8, height: u16 },
+        Wrapped(Unsorted),
+        Pair(u8, u16),
+        Tag { z: String, a: Option<u8>, m: (u8, bool) },
+    }
+    agree(&mut o, "field_order", "Unsorted", &st(Unsorted::SCHEMA), &Unsorted { zeta: 9, alpha: 300, mid: true });
+    agree(&mut o, "field_order", "Shape::Nothing", &st(Shape::SCHEMA), &Shape::Nothing);
+    agree(&mut o, "field_order", "Shape::Rect", &st(Shape::SCHEMA), &Shape::Rect { width: 3, height: 900 });
+    agree(&mut o, "field_order", "Shape::Wrapped", &st(Shape::SCHEMA), &Shape::Wrapped(Unsorted { zeta: 0, alpha: 65535, mid: false }));
+    agree(&mut o, "field_order", "Shape::Pair", &st(Shape::SCHEMA), &Shape::Pair(7, 70));
+    agree(&mut o, "field_order", "Shape::Tag", &st(Shape::SCHEMA), &Shape::Tag { z: "zz".into(), a: Some(1), m: (2, true) });
+    agree(&mut o, "field_order", "Vec<Shape>", &st(<Vec<Shape>>::SCHEMA), &vec![Shape::Rect { width: 1, height: 2 }, Shape::Nothing, Shape::Tag { z: String::new(), a: None, m: (0, false) }]);
     // sequences and maps longer than 65536 elements (the theorem covers them when no element has an
     // empty encoding; too large for the model's case file: direct oracles only)
     let long: Vec<u16> = (0..70000u32).map(|i| (i % 65536) as u16).collect();
